@@ -139,7 +139,7 @@ def random_histories(ids, W, count, depth, seed, log, jobs=8):
             obs = post.pop("obs")
             same = graph.state_key(post) == graph.state_key(pre)
             ev = {"id": eid, "pre": pre, "act": a, "out": out, "ret": -1 if ret is None else ret, "same": same,
-                  "pk": ""}
+                  "pk": "", "prebroken": False}
             if not same:
                 ev["post"] = post
                 ev["obs"] = obs
@@ -329,7 +329,8 @@ def replay(case, log):
     post = graph.project(U)
     obs = post.pop("obs")
     same = graph.state_key(post) == graph.state_key(pre)
-    ev = {"id": 0, "pre": pre, "act": a, "out": out, "ret": -1 if ret is None else ret, "same": same, "pk": ""}
+    ev = {"id": 0, "pre": pre, "act": a, "out": out, "ret": -1 if ret is None else ret, "same": same, "pk": "",
+          "prebroken": False}
     if not same:
         ev["post"] = post
         ev["obs"] = obs
